@@ -50,6 +50,64 @@ class ClassInfo:
         return self.module.loc(node or self.node)
 
 
+def _partialmethod_as_function(name, value, ci):
+    """`name = partialmethod(method, k=v, ...)` in a class body, *method* a
+    function defined earlier in the same body: the equivalent
+        def name(self, <remaining parameters>):
+            return self.method(<remaining parameters>, k=v, ...)
+    as a synthetic FunctionDef (positional bindings are not supported)"""
+    if not (isinstance(value, ast.Call) and ast.unparse(value.func).split(
+            ".")[-1] == "partialmethod" and value.args and isinstance(
+            value.args[0], ast.Name) and len(value.args) == 1):
+        return None
+    tgt = ci.members.get(value.args[0].id)
+    if tgt is None or tgt.kind != "func":
+        return None
+    f = tgt.node
+    bound = {k.arg for k in value.keywords if k.arg}
+    if len(bound) != len(value.keywords):
+        return None
+    import copy
+    pos = [a for a in f.args.args if a.arg not in bound]
+    kwonly = [a for a in f.args.kwonlyargs if a.arg not in bound]
+    call_args = [ast.Name(id=a.arg, ctx=ast.Load()) for a in pos[1:]]
+    if f.args.vararg:
+        call_args.append(ast.Starred(value=ast.Name(id=f.args.vararg.arg,
+                                                    ctx=ast.Load()),
+                                     ctx=ast.Load()))
+    kws = [ast.keyword(arg=a.arg, value=ast.Name(id=a.arg, ctx=ast.Load()))
+           for a in kwonly] + [copy.deepcopy(k) for k in value.keywords]
+    if f.args.kwarg:
+        kws.append(ast.keyword(arg=None, value=ast.Name(id=f.args.kwarg.arg,
+                                                        ctx=ast.Load())))
+    selfname = f.args.args[0].arg
+    body = ast.Return(value=ast.Call(
+        func=ast.Attribute(value=ast.Name(id=selfname, ctx=ast.Load()),
+                           attr=f.name, ctx=ast.Load()),
+        args=call_args, keywords=kws))
+    kw_defaults = [d for a, d in zip(f.args.kwonlyargs, f.args.kw_defaults)
+                   if a.arg not in bound]
+    n_def = len(f.args.defaults)
+    defaults = list(f.args.defaults) if all(
+        a.arg not in bound for a in f.args.args[len(f.args.args) - n_def:]) \
+        else []
+    new = ast.FunctionDef(
+        name=name, args=ast.arguments(
+            posonlyargs=[], args=copy.deepcopy(pos), vararg=copy.deepcopy(
+                f.args.vararg), kwonlyargs=copy.deepcopy(kwonly),
+            kw_defaults=copy.deepcopy(kw_defaults),
+            kwarg=copy.deepcopy(f.args.kwarg),
+            defaults=copy.deepcopy(defaults)),
+        body=[body], decorator_list=[], returns=None)
+    ast.copy_location(new, value)
+    ast.fix_missing_locations(new)
+    for n_ in ast.walk(new):
+        if not hasattr(n_, "lineno"):
+            n_.lineno = value.lineno
+            n_.col_offset = value.col_offset
+    return new
+
+
 def _decorator_name(d):
     if isinstance(d, ast.Call):
         d = d.func
@@ -157,6 +215,10 @@ class Model:
                 elif isinstance(st, ast.Assign):
                     for t in st.targets:
                         if isinstance(t, ast.Name):
+                            pm = _partialmethod_as_function(t.id, st.value, ci)
+                            if pm is not None:
+                                ci.members[t.id] = Member(t.id, "func", pm, ci)
+                                continue
                             kind = "alias" if isinstance(
                                 st.value, (ast.Name, ast.Attribute)) else "value"
                             ci.members[t.id] = Member(t.id, kind, st.value, ci)
